@@ -45,6 +45,8 @@ def one(rec, hub, tier, seed, letters, pat, pi, what, ai, assign):
         drv.do_errors(hub, U, sub, rng)
         drv.do_items_where_split(hub, U, sub, rng)
         drv.do_whole_array(hub, U, sub, rng)
+        drv.do_float32_targets(hub, U, sub, rng)
+        drv.do_iterator_keys(hub, U, sub, rng)
     elif what == "history":
         sub = tuple(rng.permutation(list(letters))[: int(rng.integers(1, len(letters) + 1))])
         drv.do_history(hub, U, letters, sub, rng, 25 if tier == "quick" else 60)
